@@ -53,6 +53,8 @@ pub fn std_layers() -> Layers {
     l.add(raw::Layer::new(68, "li").add_pairs(&[(20, LayerPurpose::Drawing), (16, LayerPurpose::Pin), (5, LayerPurpose::Label), (21, LayerPurpose::Obstruction)]).unwrap());
     l.add(raw::Layer::new(68, "mcon").add_pairs(&[(44, LayerPurpose::Drawing), (48, LayerPurpose::Pin), (45, LayerPurpose::Label), (46, LayerPurpose::Obstruction)]).unwrap());
     l.add(raw::Layer::new(68, "licon").add_pairs(&[(60, LayerPurpose::Drawing), (61, LayerPurpose::Pin), (62, LayerPurpose::Label), (63, LayerPurpose::Obstruction)]).unwrap());
+    // one purpose registered under two datatypes (abstract layer id 104): which number an exporter picks must not vary
+    l.add(raw::Layer::new(70, "dup").add_pairs(&[(20, LayerPurpose::Drawing), (44, LayerPurpose::Drawing), (5, LayerPurpose::Label), (16, LayerPurpose::Pin), (17, LayerPurpose::Pin)]).unwrap());
     l.add(raw::Layer::new(4, "met3").add_pairs(&[(0, LayerPurpose::Drawing), (11, LayerPurpose::Pin), (12, LayerPurpose::Label), (13, LayerPurpose::Obstruction)]).unwrap());
     l
 }
@@ -75,7 +77,7 @@ pub fn shape_of(e: &Value) -> Shape {
 }
 /// abstract layer id -> key: 1..4 by GDSII number, 101.. by name (layers sharing the number 68)
 pub fn lkey(layers: &Layers, n: i16) -> raw::LayerKey {
-    match n { 101 => layers.keyname("li"), 102 => layers.keyname("mcon"), 103 => layers.keyname("licon"), _ => layers.keynum(n) }.expect("harness: layer")
+    match n { 101 => layers.keyname("li"), 102 => layers.keyname("mcon"), 103 => layers.keyname("licon"), 104 => layers.keyname("dup"), _ => layers.keynum(n) }.expect("harness: layer")
 }
 /// per-layer shape groups: either {"<layernum>": [shapes]} or [{layer, shapes}]
 fn layer_groups(v: &Value) -> Vec<(i16, Vec<Value>)> {
